@@ -77,14 +77,14 @@ def _z3():
 
 def _sort_letter(e) -> str:
     z3 = _z3()
-    s = e.sort()
-    if s == z3.IntSort():
+    k = e.sort().kind()
+    if k == z3.Z3_INT_SORT:
         return "I"
-    if s == z3.RealSort():
+    if k == z3.Z3_REAL_SORT:
         return "Q"
-    if s == z3.BoolSort():
+    if k == z3.Z3_BOOL_SORT:
         return "B"
-    if s == z3.StringSort():
+    if k == z3.Z3_SEQ_SORT:
         return "S"
     return "R"
 
@@ -779,25 +779,32 @@ def attribute(channel: str, atom, kind: Optional[str] = None) -> Tuple[str, Any]
             if s2 != subj and mismatch(channel, cand, kind):
                 return (_anchor_rule(channel, cand, kind) or _regex_sig(atom[2], s2)), cand
         return _regex_sig(atom[2], subj), atom
-    # 2. smallest operator application (with evaluated arguments) that fails
-    for t in subterms_postorder(atom):
-        if t is atom:
-            break
-        if is_regex_op(t[0]):
-            continue
-        flat = _flatten_value_term(channel, t)
-        if flat is None or excluded(flat):
-            continue
-        if channel != "is_valid" and var_value(flat) is None and var_value(atom) is not None:
-            m = mark_var(flat)
-            flat2 = m if m is not None else flat
-        else:
-            flat2 = flat
-        for cand in candidates_for(flat2):
-            if mismatch(channel, cand, kind):
-                if flat2[0] == "str.in_re":
-                    return attribute(channel, cand, kind)
-                return op_name(flat2[0]) + ":" + arg_class(flat2[0], [spec_value(a) for a in flat2[1:]]), cand
+    # 2. smallest operator application (arguments replaced by Z3's values) that
+    #    fails in the same way; second pass: that fails in any way (e.g. a
+    #    str.to.int value that makes an enclosing mod raise)
+    subs = subterms_postorder(atom)
+    for any_kind in (False, True):
+        for t in subs:
+            if is_regex_op(t[0]):
+                continue
+            flat = _flatten_value_term(channel, t)
+            if flat is None or excluded(flat):
+                continue
+            if t is atom and flat == atom:
+                continue
+            if channel != "is_valid" and var_value(flat) is None and var_value(atom) is not None:
+                m = mark_var(flat)
+                flat2 = m if m is not None else flat
+            else:
+                flat2 = flat
+            for cand in ([flat2] if t is atom else candidates_for(flat2)):
+                if not mismatch(channel, cand, None if any_kind else kind):
+                    continue
+                if flat2[0] == "str.in_re" and is_lit(flat2[1]):
+                    sig = attribute(channel, cand, _MISMATCH_MEMO.get(channel + "|" + json.dumps(cand)))[0]
+                else:
+                    sig = op_name(flat2[0]) + ":" + arg_class(flat2[0], [spec_value(a) for a in flat2[1:]])
+                return (sig + ":in-context", atom) if any_kind else (sig, cand)
     top = atom
     # the wrapper "term = c" itself: classify by the term when its args are literals
     if top[0] in ("=", "<=") and not is_lit(top[1]) and all(is_lit(a) or is_regex_op(a[0]) for a in top[1][1:]) and is_lit(top[2]):
@@ -1103,8 +1110,8 @@ def work(task) -> List[Dict[str, Any]]:
                  "detail": _exc_text(ex), "fam": family, "nt": False}]
     for n, atom in enumerate(atoms):
         for ch in channels:
-            if ch != "is_valid" and kind == "term" and n > 0 and not THOROUGH:
-                continue  # quick tier: the other channels see the first atom of a term
+            if ch != "is_valid" and not THOROUGH and ((kind == "term" and n > 0) or (kind == "regex" and n >= 5)):
+                continue  # quick tier: the other channels see the first atom of a term / the first 5 subjects
             a = atom
             if ch in ("evaluate", "substitute"):
                 m = mark_var(atom)
@@ -1159,7 +1166,7 @@ def make_tasks(tier: str, seed: int) -> List[Any]:
     for t in family_i_terms(tier):
         tasks.append(("term", t, all_ch, "i-operators"))
     # (i-b) random compositions
-    n_comp = 30000 if thorough else 1000
+    n_comp = 12000 if thorough else 1000
     for k in range(n_comp):
         atom = gen_term(rng, "B", rng.choice([2, 2, 3]))
         tasks.append(("atom", atom, all_ch if k % 4 == 0 else ("is_valid",), "i-compositions"))
@@ -1187,18 +1194,18 @@ def make_tasks(tier: str, seed: int) -> List[Any]:
     det2 += [["re.++", pre, [u, ["str.to_re", S(e)]]] for u in UNARY_RE if "loop" in u
              for pre in (a_, ["re.range", S("a"), S("b")]) for e in ("", "ab")]
     for k, r in enumerate(det):
-        subs = subjects_for(r, None, 14 if thorough else 8)
+        subs = subjects_for(r, None, 12 if thorough else 8)
         chans = all_ch if (k < len(leaves) * (1 + len(UNARY_RE)) or k % (2 if thorough else 3) == 0) else ("is_valid",)
         tasks.append(("regex", (r, subs), chans, "ii-regex"))
     for r in det2:
         tasks.append(("regex", (r, subjects_for(r, None, 14 if thorough else 9)), all_ch, "ii-regex"))
     rnd: List[Any] = []
-    for _ in range(6000 if thorough else 220):
+    for _ in range(3000 if thorough else 220):
         rnd.append(gen_regex(rng, 2, leaves))
-    for _ in range(6000 if thorough else 180):
+    for _ in range(3000 if thorough else 180):
         rnd.append(gen_regex(rng, 3, leaves))
     for k, r in enumerate(rnd):
-        subs = subjects_for(r, rng, 14 if thorough else 7)
+        subs = subjects_for(r, rng, 12 if thorough else 7)
         chans = all_ch if k % (8 if thorough else 4) == 0 else ("is_valid",)
         tasks.append(("regex", (r, subs), chans, "ii-regex-random"))
     return tasks
